@@ -51,6 +51,18 @@ def internal_samples(rng, ts, k=1):
     return tables.tree_sequence()
 
 
+def extra_flags(rng, ts, frac=0.5):
+    """set flag bits other than NODE_IS_SAMPLE on some nodes (tskit allows any uint32; e.g.
+    tsinfer's NODE_IS_HISTORICAL_SAMPLE = 1<<20, tsdate's NODE_SPLIT_BY_PREPROCESS = 1<<21)"""
+    tables = ts.dump_tables()
+    flags = tables.nodes.flags.copy()
+    for u in range(ts.num_nodes):
+        if rng.random() < frac:
+            flags[u] |= rng.choice([1 << 20, 1 << 21, 1 << 16, 2, (1 << 20) | 4])
+    tables.nodes.flags = flags
+    return tables.tree_sequence()
+
+
 def random_times(rng, ts, style=None):
     """arbitrary 'unconstrained' time vector for the nodes of ts"""
     n = ts.num_nodes
